@@ -456,6 +456,30 @@ def forwards_bare_recv(case) -> bool:
                for b in builds for s in comm_nodes(b)[0])
 
 
+def holder_payload_dep_leak(case) -> bool:
+    """Some array is computed *from the value of* a send holder whose payload
+    depends on a receive (the array itself need not depend on that receive:
+    a holder's value is its pass-through operand)."""
+    from pytato.distributed.nodes import DistributedSendRefHolder
+
+    from pvf import distgen
+    try:
+        builds = distgen.build_case(case)
+    except Exception:  # noqa: BLE001
+        return False
+    for b in builds:
+        for n in reflect.walk(b.outputs).values():
+            if isinstance(n, DistributedSendRefHolder) or not reflect.is_node(n):
+                continue
+            if type(n).__name__ in ("DictOfNamedArrays", "DistributedSend"):
+                continue
+            for _, ch in reflect.children(n):
+                if isinstance(ch, DistributedSendRefHolder) \
+                        and _recvs_under(ch.send.data):
+                    return True
+    return False
+
+
 def model_outputs(builds) -> list[dict[str, np.ndarray]]:
     """Reference value of every output of every rank."""
     index: dict[tuple, list] = {}
